@@ -110,10 +110,12 @@ func (m *c20m) stub(f *types.Func, recv oval, args []oval) ([]oval, bool) {
 			if mm := c20placeholder.FindStringSubmatch(str); mm != nil {
 				return []oval{oSym{polyVar("p" + mm[1])}, oIface{}}, true
 			}
-			if _, err := strconv.ParseFloat(str, 64); err != nil {
+			v, err := strconv.ParseFloat(str, 64)
+			if err != nil {
 				return []oval{oSym{poly{}}, m.err}, true
 			}
-			if r, ok := new(big.Rat).SetString(str); ok {
+			// the float64 the text denotes (what the function returns), as an exact rational
+			if r := new(big.Rat).SetFloat64(v); r != nil {
 				return []oval{oSym{polyConst(r)}, oIface{}}, true
 			}
 			return []oval{oTop{"ParseFloat of " + str}, oTop{"?"}}, true
@@ -651,6 +653,41 @@ func c20model(c *Ctx) bool {
 			}
 		}
 		get(lv.facet)
+	}
+	// datum names the WKT reader does rewrite (proj4js wkt.js): the reference is the one the table
+	// entry gives, as +datum=<entry> does
+	for _, nm := range []struct{ wkt, entry, spheroid string }{
+		{"D_WGS_1984", "wgs84", `SPHEROID["WGS_1984",6378137,298.257223563]`},
+		{"WGS_1984", "wgs84", `SPHEROID["WGS_1984",6378137,298.257223563]`},
+		{"New_Zealand_Geodetic_Datum_1949", "nzgd49", `SPHEROID["International_1924",6378388,297]`},
+		{"D_New_Zealand_1949", "nzgd49", `SPHEROID["International_1924",6378388,297]`},
+	} {
+		facet := "named datum(" + nm.wkt + ")"
+		w, why1 := run(`GEOGCS["GCS_Model",DATUM["` + nm.wkt + `",` + nm.spheroid + `],PRIMEM["Greenwich",0],UNIT["degree",0.0174532925199433]]`)
+		p, why2 := run("+proj=longlat +datum=" + nm.entry + " +no_defs")
+		if why1 != "" || why2 != "" {
+			setUnk(facet, "DATUM[%q] / +datum=%s: %s%s", nm.wkt, nm.entry, why1, why2)
+			continue
+		}
+		a, ok1 := w.fields["DatumParams"].(oSlice)
+		b, ok2 := p.fields["DatumParams"].(oSlice)
+		same := ok1 && ok2 && a.length() == b.length()
+		for i := 0; same && i < a.length(); i++ {
+			x, okx := symOf(a.at(i))
+			y, oky := symOf(b.at(i))
+			same = okx && oky && x.equal(y)
+		}
+		if !same {
+			setBad(facet, "a WKT whose datum is named %q stores the shift %s; +datum=%s, the table entry that name stands for, stores %s", nm.wkt, showVal(w.fields["DatumParams"]), nm.entry, showVal(p.fields["DatumParams"]))
+		}
+		for _, f := range []string{"A", "B"} {
+			x, okx := symOf(w.fields[f])
+			y, oky := symOf(p.fields[f])
+			if okx && oky && !x.equal(y) {
+				setBad(facet, "a WKT whose datum is named %q has SR.%s = %s, +datum=%s has %s", nm.wkt, f, x.canon(), nm.entry, y.canon())
+			}
+		}
+		get(facet)
 	}
 	// datum names that merely resemble a name the WKT reader rewrites (proj4js rewrites exactly
 	// wgs_1984, new_zealand_1949 and new_zealand_geodetic_datum_1949, after dropping a leading d_):
@@ -1201,6 +1238,10 @@ func c09datumModel(c *Ctx, jsDir string) {
 		want       map[int]poly
 	}{
 		{"translation-only", "P1,0,0", "PJD_3PARAM", map[int]poly{0: p1}},
+		{"second translation only", "0,P1,0", "PJD_3PARAM", map[int]poly{1: p1}},
+		{"third translation only", "0,0,P1", "PJD_3PARAM", map[int]poly{2: p1}},
+		{"second rotation only", "0,0,0,0,P1,0,0", "PJD_7PARAM", map[int]poly{4: symMul(p1, secToRad), 6: one}},
+		{"third rotation only", "0,0,0,0,0,P1,0", "PJD_7PARAM", map[int]poly{5: symMul(p1, secToRad), 6: one}},
 		{"all-zero(3)", "0,0,0", "PJD_WGS84", nil},
 		{"rotation-only", "0,0,0,P1,0,0,0", "PJD_7PARAM", map[int]poly{3: symMul(p1, secToRad), 6: one}},
 		{"scale-only", "0,0,0,0,0,0,P1", "PJD_7PARAM", map[int]poly{6: ppm(p1), 3: {}}},
